@@ -84,6 +84,7 @@ func suiteArgon(c *Ctx) {
 		var keys []string
 		for _, cf := range cfgs {
 			restore := cf.set()
+			pendingOp(fmt.Sprintf("argon2key %d %d %s %s %d %d %d %d (%s)", mode, ver, hx(pw), hx(salt), t, m, p, kl, cf.name))
 			k := safely(func() string { return hx(argon2crypto.Key(mode, ver, pw, salt, t, m, p, kl)) })
 			restore()
 			keys = append(keys, k)
@@ -239,6 +240,7 @@ func suiteArgonSched(c *Ctx) {
 		var first string
 		for rep, procs := range []int{1, 2, 3, 16, 2} {
 			old := runtime.GOMAXPROCS(procs)
+			pendingOp(fmt.Sprintf("argon2key %d %d %s %s %d %d %d 32 (GOMAXPROCS=%d)", mode, ver, hx(pw), hx(salt), t, m, p, procs))
 			k := safely(func() string { return hx(argon2crypto.Key(mode, ver, pw, salt, t, m, p, 32)) })
 			runtime.GOMAXPROCS(old)
 			if rep == 0 {
